@@ -94,7 +94,7 @@ def gen_closed(r, tier):
 class C04(Prop):
     id = "C04"
     lean_modules = ["Fan2go.Props.C04", "Fan2go.Props.C04pid"]
-    fact_modules = ["Fan2go.Props.Facts", "Fan2go.Props.Trans", "Fan2go.Props.Trans3A", "Fan2go.Props.Trans3B"]
+    fact_modules = ["Fan2go.Props.Facts", "Fan2go.Props.Trans", "Fan2go.Props.Trans3A", "Fan2go.Props.Trans3B", "Fan2go.Props.Trans3Leaf"]
     rule = ("loop: both Cycle functions, exhaustive targets x currents for the stateless direct algorithms (all 256x256 for a set of "
             "limits in the thorough tier), random PID gains / clocks; closed: the real controller in virtual time, limits random or "
             "0..255, loop direct / direct+limit / default PID with tick periods 50 ms..2 s, an arbitrary prior curve trajectory "
